@@ -2,6 +2,12 @@
 """Writes MANIFEST.json. The list DONE names the properties whose checks exist."""
 import json, subprocess
 DONE = {
+ "C12": ("exploration", "sequence differential over four iteration styles + metamorphic trivia insertion + call-history termination monitor (item bound, fuel, span progress)",
+         "Value sequences are printed, joined with random trivia over {space, tab, CR, LF, FF, comments} and re-read through four iteration styles and three sources, which must agree with each other and with the original sequence; the same token sequence under two independent trivia draws must read identically; over arbitrary input every iteration style and random call histories on one parser (continuing after errors) are bounded by len+2 items, by the hook step counter and by monotone non-empty datum spans. Both feature builds.",
+         "trusted: the harness's rule for where a separator is required; item bound len+2 as the definition of non-termination", "4/C12"),
+ "C19": ("exploration", "error-location geometry monitor + exhaustive proper-prefix truncation monitor",
+         "Every Syntax/Eof error from three sources is checked against line/column bounds computed from the input, and its io::Error conversion against the documented kind; for every proper byte prefix of every well-formed single-datum text (fixed corpus covering every token kind, printer and layout output, default/Emacs/sampled option sets) a failing prefix must be an EOF-category error. Remaining genuine defects are listed in known_findings.json by lexer site.",
+         "trusted: line = LF-separated segment, column = 0-based byte offset (as documented)", "4/C19"),
  "C03": ("exploration", "panic / step-counter (fuel) / recursion-depth-gauge / budget-restored invariant hooks + child-process crash monitor",
          "Every parse call is observed by catch_unwind (the monitoring build turns integer overflow into a panic), by the hook step counter (termination decided on logical steps, never wall-clock), by the recursion-depth gauge (bounded recursion seen as a number) and by the nesting-budget accessor (restored to 128 after every call, Ok or Err, across call histories of up to 300 calls on one parser). All byte strings of length <= 2 and all length-3 strings over a 52-byte alphabet are enumerated; 10^6-deep nests of 14 opener kinds run in child processes on a 2 MiB stack whose exit status is the observation.",
          "trusted: hooks tick in every scanning loop; exit-status interpretation of stack overflow", "4/C03"),
